@@ -1,5 +1,6 @@
 """Per-property metadata used by ./check for the evidence files, and the extra engines per tier."""
 
+ISOLATION = " Instance isolation: two histories run alone and then interleaved call by call on two instances side by side must report bit-identical observations."
 COMMON = [
     "the harness binary is built from /repo's working tree by cargo (path dependency, feature verif-hooks) in profile `verif` = release + overflow-checks + debug-assertions",
     "f32 arithmetic follows IEEE-754 on x86-64 SSE (no fast-math); results are deterministic, so a replay file reproduces a history exactly",
@@ -57,6 +58,8 @@ META.update({
     "C20": {"rule": "all 2^32 f32 bit patterns through both conversions, re-conversion of every read-back (idempotence, PartialEq of the newtypes), all 256 u8 note arguments (allow/forbid/is_allowed/u8::from, forbid-everything with the raw value last, twin quantizers edited through n and min(n,11)) and all 256 channel arguments (note-on heard on min(c,15) only), and twin envelopes configured with an out-of-range value vs. its bound driven by the same gate script (outputs compared bit for bit). distinct_nontrivial = 1024 f32 chunks (sign x exponent ranges) + differential classes",
             "assumptions": COMMON + ["the bounds are the property's numbers 0.001, 20, 0, 1 (not the crate's constants)", "-0.0 is accepted as 0"]},
 })
+for _p in ("C01", "C10", "C13", "C07", "C04", "C06", "C18", "C15", "C16"):
+    META[_p] = dict(META[_p], rule=META[_p]["rule"] + ISOLATION)
 
 from engines import miri, asan  # noqa: E402
 
